@@ -9,6 +9,7 @@ import (
 	"strings"
 	"testing"
 	"time"
+	"vt/internal/script"
 
 	"pgregory.net/rapid"
 
@@ -25,6 +26,8 @@ type rdField struct {
 	// Embed: name of an embedded struct type of the same package; Ptr: embedded by pointer
 	Embed string `json:"embed,omitempty"`
 	Ptr   bool   `json:"ptr,omitempty"`
+	// EmbedDoc: a one-line doc comment on the embedded field itself (the generator hands it to the delegation helper)
+	EmbedDoc string `json:"embeddoc,omitempty"`
 	// Listed: the field is expected to be answered by the type's own switch
 	Listed bool `json:"listed,omitempty"`
 	// Also: a second name declared by the same field (`F1, G1 int`): both share the doc
@@ -48,6 +51,17 @@ type rdPkg struct {
 
 type c16Case struct {
 	Pkgs []rdPkg `json:"pkgs"`
+	// Base: OutputFileBaseName ("" = zz_generated); Runs: how often the generator runs over the module before the result is
+	// compiled and tested (a later run sees the output of the earlier one as part of the package)
+	Base string `json:"base,omitempty"`
+	Runs int    `json:"runs,omitempty"`
+}
+
+func (c c16Case) base() string {
+	if c.Base == "" {
+		return "zz_generated"
+	}
+	return c.Base
 }
 
 var rdDocPool = []string{
@@ -184,6 +198,9 @@ func genRDPkg(t *rapid.T, idx int) rdPkg {
 					}
 					f.Embed = e
 					f.Ptr = rapid.Bool().Draw(t, "embptr")
+					if rapid.IntRange(0, 2).Draw(t, "embeddoc") == 0 {
+						f.EmbedDoc = rapid.SampledFrom([]string{"inherited @ v1: ", "see @meta and 100%: ", "quoted \"x\" \\ back `tick`: ", "plain: ", "a @@ b: ", "中文 é: "}).Draw(t, "embeddoctext")
+					}
 					if strings.HasPrefix(e, "Type") {
 						hasExported = true
 					}
@@ -198,6 +215,26 @@ func genRDPkg(t *rapid.T, idx int) rdPkg {
 			if !hasExported {
 				fieldN++
 				ty.Fields = append(ty.Fields, rdField{Name: fmt.Sprintf("F%d", fieldN), Type: "int", Listed: true, Doc: genDoc(t, "x", false)})
+			}
+			// with several embedded structs Go's method promotion can answer a name through another path than the documented
+			// embedded field; the doc-in-front expectation is only made where the path is unique
+			nonOpaqueEmbeds := 0
+			for _, f := range ty.Fields {
+				if f.Embed == "" {
+					continue
+				}
+				isOpaque := false
+				for _, o := range opaque {
+					isOpaque = isOpaque || o == f.Embed
+				}
+				if !isOpaque {
+					nonOpaqueEmbeds++
+				}
+			}
+			if nonOpaqueEmbeds > 1 {
+				for i := range ty.Fields {
+					ty.Fields[i].EmbedDoc = ""
+				}
 			}
 			if ty.Kind == "struct" && len(opaque) > 0 && rapid.IntRange(0, 3).Draw(t, "opaquefirst") == 0 {
 				// a struct without exported field embedded ahead of everything else (by value or by pointer)
@@ -238,6 +275,8 @@ func genC16(t *rapid.T) c16Case {
 	for i := 0; i < n; i++ {
 		c.Pkgs = append(c.Pkgs, genRDPkg(t, i))
 	}
+	c.Base = rapid.SampledFrom([]string{"", "", "gen", "doc_generated", "zz_gen"}).Draw(t, "base")
+	c.Runs = rapid.SampledFrom([]int{1, 1, 2, 3}).Draw(t, "runs")
 	return c
 }
 
@@ -283,6 +322,9 @@ func (p rdPkg) source() string {
 			for _, f := range ty.Fields {
 				writeDoc(b, "\t", f.Doc)
 				if f.Embed != "" {
+					if f.EmbedDoc != "" {
+						fmt.Fprintf(b, "\t// %s\n", f.EmbedDoc)
+					}
 					if f.Ptr {
 						fmt.Fprintf(b, "\t*%s\n", f.Embed)
 					} else {
@@ -419,6 +461,12 @@ func (p rdPkg) literal(ty *rdType) string {
 
 // answers collects what RuntimeDoc(name) must return for the type, following embedded covered structs
 func (p rdPkg) answers(ty *rdType, into map[string][]string, listedOnly map[string]bool) {
+	p.answersVia(ty, into, listedOnly, map[string][]string{}, nil)
+}
+
+// answersVia: via collects, per answered name, the doc comments of the embedded fields the answer was delegated through
+// (the generator hands them to its helper as a prefix for the first line)
+func (p rdPkg) answersVia(ty *rdType, into map[string][]string, listedOnly map[string]bool, via map[string][]string, chain []string) {
 	for _, f := range ty.Fields {
 		if f.Embed != "" {
 			continue
@@ -426,10 +474,12 @@ func (p rdPkg) answers(ty *rdType, into map[string][]string, listedOnly map[stri
 		if f.Listed {
 			if _, dup := into[f.Name]; !dup {
 				into[f.Name] = expectedDoc(f.Doc, f.Name, false)
+				via[f.Name] = append([]string{}, chain...)
 			}
 			if f.Also != "" {
 				if _, dup := into[f.Also]; !dup {
 					into[f.Also] = expectedDoc(f.Doc, f.Also, false)
+					via[f.Also] = append([]string{}, chain...)
 				}
 			}
 		} else {
@@ -440,7 +490,11 @@ func (p rdPkg) answers(ty *rdType, into map[string][]string, listedOnly map[stri
 		if f.Embed != "" {
 			e := p.typeByName(f.Embed)
 			if p.covered(e) {
-				p.answers(e, into, listedOnly)
+				next := chain
+				if f.EmbedDoc != "" {
+					next = append(append([]string{}, chain...), strings.TrimSpace(f.EmbedDoc))
+				}
+				p.answersVia(e, into, listedOnly, via, next)
 			}
 		}
 	}
@@ -448,7 +502,8 @@ func (p rdPkg) answers(ty *rdType, into map[string][]string, listedOnly map[stri
 
 func (p rdPkg) testSource() string {
 	b := &strings.Builder{}
-	fmt.Fprintf(b, "package %s\n\nimport (\n\t\"reflect\"\n\t\"testing\"\n)\n\n", p.Name)
+	fmt.Fprintf(b, "package %s\n\nimport (\n\t\"reflect\"\n\t\"strings\"\n\t\"testing\"\n)\n\n", p.Name)
+	b.WriteString("func viaDoc(got, want, via []string) bool {\n\tif len(got) != len(want) || len(got) == 0 || !strings.HasSuffix(got[0], want[0]) || !reflect.DeepEqual(got[1:], want[1:]) {\n\t\treturn false\n\t}\n\tfor _, p := range via {\n\t\tif !strings.Contains(got[0], p) {\n\t\t\treturn false\n\t\t}\n\t}\n\treturn true\n}\n\n")
 	b.WriteString("type rdoc interface {\n\tRuntimeDoc(names ...string) ([]string, bool)\n}\n\n")
 	b.WriteString("func sameDoc(a, b []string) bool {\n\tif len(a) == 0 && len(b) == 0 {\n\t\treturn true\n\t}\n\treturn reflect.DeepEqual(a, b)\n}\n\n")
 	b.WriteString("func TestRuntimeDoc(t *testing.T) {\n")
@@ -477,13 +532,21 @@ func (p rdPkg) testSource() string {
 		if ty.Kind == "struct" || ty.Kind == "generic" {
 			ans := map[string][]string{}
 			notListed := map[string]bool{}
-			p.answers(ty, ans, notListed)
+			via := map[string][]string{}
+			p.answersVia(ty, ans, notListed, via, nil)
 			names := make([]string, 0, len(ans))
 			for n := range ans {
 				names = append(names, n)
 			}
 			sort.Strings(names)
 			for _, n := range names {
+				if len(via[n]) > 0 && len(ans[n]) > 0 {
+					// delegated through documented embedded fields: the helper puts their doc text in front of the first line; every
+					// character of it must be there, and the field's own lines must follow unchanged
+					fmt.Fprintf(b, "\t\tif doc, found := d.RuntimeDoc(%q); !found || !viaDoc(doc, %s, %s) {\n\t\t\tt.Errorf(\"VT-FAIL %s.RuntimeDoc(%s) = %%q, %%v; want the lines %%q with the embedded fields' docs %%q in front of the first\", doc, found, %s, %s)\n\t\t}\n",
+						n, goStrings(ans[n]), goStrings(via[n]), ty.Name, n, goStrings(ans[n]), goStrings(via[n]))
+					continue
+				}
 				fmt.Fprintf(b, "\t\tif doc, found := d.RuntimeDoc(%q); !found || !sameDoc(doc, %s) {\n\t\t\tt.Errorf(\"VT-FAIL %s.RuntimeDoc(%s) = %%q, %%v; want %%q, true\", doc, found, %s)\n\t\t}\n",
 					n, goStrings(ans[n]), ty.Name, n, goStrings(ans[n]))
 			}
@@ -522,12 +585,24 @@ func oracleC16(c c16Case) error {
 	}
 	dir := tempModule(&m)
 	defer os.RemoveAll(dir)
-	res := mustRun(dir, entries, []string{"runtimedoc"}, nil)
-	if res.Panic != "" {
-		return fmt.Errorf("the runtimedoc generator panics: %s", res.Panic)
+	runs := c.Runs
+	if runs < 1 {
+		runs = 1
 	}
-	if res.Failed {
-		return fmt.Errorf("Execute with the runtimedoc generator fails: %s", res.Err)
+	for ri := 0; ri < runs; ri++ {
+		res := script.Run(script.RunSpec{Dir: dir, Entrypoints: entries, Base: c.base(), Real: []string{"runtimedoc"}})
+		if res.LoadErr != "" {
+			if ri == 0 {
+				panic("harness: synthetic module does not load: " + res.LoadErr)
+			}
+			return fmt.Errorf("run %d: the module no longer loads with the output of the previous run in it: %s", ri+1, res.LoadErr)
+		}
+		if res.Panic != "" {
+			return fmt.Errorf("run %d: the runtimedoc generator panics: %s", ri+1, res.Panic)
+		}
+		if res.Failed {
+			return fmt.Errorf("run %d: Execute with the runtimedoc generator fails: %s", ri+1, res.Err)
+		}
 	}
 	failed, _ := goTest(dir)
 	if len(failed) == 0 {
@@ -544,7 +619,7 @@ func oracleC16(c c16Case) error {
 	for _, p := range c.Pkgs {
 		if p.Name == pkgName {
 			src = p.source()
-			if b, err := os.ReadFile(dir + "/" + p.Name + "/zz_generated.runtimedoc.go"); err == nil {
+			if b, err := os.ReadFile(dir + "/" + p.Name + "/" + c.base() + ".runtimedoc.go"); err == nil {
 				gen = string(b)
 			}
 		}
